@@ -831,7 +831,7 @@ func dfs(w workload, bound int, limit int, each func(er execResult)) (count int,
 func init() {
 	checks["c08"] = func(id string) int {
 		r := newRun(id, "exploration")
-		r.Rule = "workloads W1 duplicate POSTs of one activity, W2 different activities to one inbox, W3 Likes/Announces of one owned object, W4 Follows with auto-accept, W5 Adds to one collection, W6 client POSTs to one outbox, W7 Like || Announce || GET, W8 two forwarding activities naming two owned collections in opposite order, W9-W16 (client likes, accepts, cross-protocol pairs, add vs remove, one activity to two inboxes), W17-W19 one collection written under the actor's lock and under its own, W20 two owned ids named in opposite order outside forwarding, W21 one object through two inboxes, W22 addressed vs replied-to collections, W23 a duplicate among other traffic; every schedule with at most b preemptions at the granularity of application-interface calls (controlled scheduler, depth-first, stateless re-execution) plus seeded random schedules; then the same workloads on real goroutines with PRNG jitter under the race detector; oracles: deadlock detector, conservation against the sequential run, duplicate rules, lock automaton, porcupine on the request-level history; non-trivial and distinct = a distinct interleaving (hash of the point sequence) of a workload"
+		r.Rule = "workloads W1 duplicate POSTs of one activity, W2 different activities to one inbox, W3 Likes/Announces of one owned object, W4 Follows with auto-accept, W5 Adds to one collection, W6 client POSTs to one outbox, W7 Like || Announce || GET, W8 two forwarding activities naming two owned collections in opposite order, W9-W16 (client likes, accepts, cross-protocol pairs, add vs remove, one activity to two inboxes), W17-W19 one collection written under the actor's lock and under its own, W20 two owned ids named in opposite order outside forwarding, W21 one object through two inboxes, W22 addressed vs replied-to collections, W23 a duplicate among other traffic; every schedule with at most b preemptions at the granularity of application-interface calls (controlled scheduler, depth-first, stateless re-execution) plus seeded random schedules; then the same workloads on real goroutines with PRNG jitter under the race detector; oracles: deadlock detector, conservation against the sequential run, duplicate rules, lock automaton, porcupine on the request-level history; W24 / W25 a Like / Announce of the followers collection against an auto-accepted Follow; on real goroutines every other iteration hands all requests one shared other-callback slice; non-trivial and distinct = a distinct interleaving (hash of the point sequence) of a workload"
 		r.Assumptions = []string{"the simulated Database grants Lock per id with mutual exclusion (the scheduler owns the lock table)", "granularity = calls into Database/Transport/protocols/callbacks; the library has no other shared state (checked by the race-detector build)"}
 		if *replay != "" {
 			fmt.Println("C08 replay: the recorded schedule is re-executed")
